@@ -18,7 +18,7 @@ func init() {
 			"D3 existence and tombstone sets of a TSI log file stay complementary: wherever an id is added to one of LogFile.seriesIDSet / tombstoneSeriesIDSet it is removed from the other in the same branch; " +
 			"D4 in-memory back-pointers: wherever a series is attached to a measurement (measurement.AddSeries) the series' Measurement field is that measurement (constructed with it, or assigned before the call); " +
 			"D5 a tombstoned series id is never handed out: every path of SeriesIndex.FindIDBySeriesKey that returns a non-zero id tested IsDeleted for it (both the in-memory and the on-disk lookup). " +
-			"The clause 'a drop removes a series from the index only when no data remains' is decided under C10 (D1, D7). " +
+			"D6 a delete queues a series for removal from the index only on paths where its key was not crossed out (non-empty) and the flag 'the cache still holds values of it' is false; that the crossing-out passes run first and examine every file is decided under C10 (D1, D7). " +
 			"NOT decided: TSI compaction merge semantics, regular-expression predicate evaluation, sketches/cardinality.",
 		RuleText:    "obligation = (rule, function, site); must-precede and outcome facts; path-avoidance between batch scan and flush; paired set operations per branch; definition provenance of back-pointers; path exploration with condition facts",
 		Assumptions: commonAssumptions,
@@ -373,5 +373,138 @@ func runC14(c *core.Ctx) {
 			c.Check("tombstoned-id-never-returned", fmt.Sprintf("%s/return#%d", f.Name, k), c.P.Pos(e.Pos()), bad[e] == "", bad[e])
 		}
 		c.Floor("non-zero returns of FindIDBySeriesKey", k, 2)
+	})
+
+	c.Clause("D6", func() {
+		// a series is queued for removal from the index only if it was not crossed out and has no cache values
+		f := c.Fn(tsm1 + ".(*Engine).deleteSeriesRange")
+		info := f.Info()
+		queued := func(e *core.Event) bool {
+			as, ok := e.Node.(*ast.AssignStmt)
+			if !ok || e.Kind != core.EvAssign || len(as.Lhs) != 1 || len(as.Rhs) != 1 {
+				return false
+			}
+			id, ok := as.Lhs[0].(*ast.Ident)
+			if !ok || id.Name != "deleteKeyList" && id.Name != "deleteIDList" {
+				return false
+			}
+			ce, ok := as.Rhs[0].(*ast.CallExpr)
+			if !ok {
+				return false
+			}
+			b, ok := core.Callee(info, ce).(*types.Builtin)
+			return ok && b.Name() == "append"
+		}
+		qs := findOrAbort(c, f, "append to the index-removal queue", queued, 2)
+		// the key being queued: the value variable of the innermost range loop around the queueing statements
+		var keyObj types.Object
+		var best token.Pos
+		ast.Inspect(f.Body, func(nd ast.Node) bool {
+			rs, ok := nd.(*ast.RangeStmt)
+			if !ok || !(rs.Pos() <= qs[0].Pos() && qs[0].Pos() < rs.End()) || rs.Pos() < best {
+				return true
+			}
+			if id, ok := rs.Value.(*ast.Ident); ok {
+				best = rs.Pos()
+				keyObj = info.ObjectOf(id)
+			}
+			return true
+		})
+		c.Need(keyObj != nil, "deleteSeriesRange: range variable of the queueing loop")
+		// "has cache values" flags: boolean locals set to true under a test of Cache.Values(..)
+		cacheFlags := map[types.Object]bool{}
+		ast.Inspect(f.Body, func(nd ast.Node) bool {
+			ifs, ok := nd.(*ast.IfStmt)
+			if !ok || !strings.Contains(core.ExprStr(ifs.Cond), "Cache.Values(") {
+				return true
+			}
+			for _, s := range ifs.Body.List {
+				if as, ok := s.(*ast.AssignStmt); ok && len(as.Lhs) == 1 && len(as.Rhs) == 1 && core.ExprStr(as.Rhs[0]) == "true" {
+					if id, ok := as.Lhs[0].(*ast.Ident); ok {
+						cacheFlags[info.ObjectOf(id)] = true
+					}
+				}
+			}
+			return true
+		})
+		c.Need(len(cacheFlags) >= 1, "deleteSeriesRange: flag set when the cache still holds values of the series")
+		// emptyKey(x, val): what the outcome val of atom x says about len(key)==0: 1 = empty, 2 = non-empty, 0 = nothing
+		emptyKey := func(x ast.Expr, val bool) int {
+			be, ok := ast.Unparen(x).(*ast.BinaryExpr)
+			if !ok {
+				return 0
+			}
+			ce, ok := ast.Unparen(be.X).(*ast.CallExpr)
+			if !ok || len(ce.Args) != 1 || !isZeroLit(info, be.Y) {
+				return 0
+			}
+			if b, ok := core.Callee(info, ce).(*types.Builtin); !ok || b.Name() != "len" {
+				return 0
+			}
+			if id, ok := ast.Unparen(ce.Args[0]).(*ast.Ident); !ok || info.ObjectOf(id) != keyObj {
+				return 0
+			}
+			isEmpty := false
+			switch be.Op {
+			case token.EQL:
+				isEmpty = val
+			case token.NEQ, token.GTR:
+				isEmpty = !val
+			default:
+				return 0
+			}
+			if isEmpty {
+				return 1
+			}
+			return 2
+		}
+		mentions := func(x ast.Expr) bool {
+			found := false
+			ast.Inspect(x, func(nd ast.Node) bool {
+				if id, ok := nd.(*ast.Ident); ok && (info.ObjectOf(id) == keyObj || cacheFlags[info.ObjectOf(id)]) {
+					found = true
+				}
+				return !found
+			})
+			return found
+		}
+		bad := map[*core.Event]string{}
+		complete := f.Flow().ExplorePaths(func(k core.VarKey, fct core.Fact) bool {
+			return k.Root == nil && strings.HasPrefix(k.Path, "cond:") && fct.Def != nil && mentions(fct.Def)
+		}, func(e *core.Event, st core.State) {
+			if !queued(e) {
+				return
+			}
+			var crossed, cache int8
+			for k, fct := range st {
+				if k.Root != nil || !strings.HasPrefix(k.Path, "cond:") || fct.Def == nil || fct.Bool == 0 {
+					continue
+				}
+				var atoms []atomB
+				decompose(fct.Def, fct.Bool == 1, &atoms)
+				for _, a := range atoms {
+					if r := emptyKey(a.x, a.val); r != 0 {
+						crossed = int8(r)
+					}
+					if id, ok := ast.Unparen(a.x).(*ast.Ident); ok && cacheFlags[info.ObjectOf(id)] {
+						if a.val {
+							cache = 1
+						} else {
+							cache = 2
+						}
+					}
+				}
+			}
+			switch {
+			case crossed != 2:
+				bad[e] = "a series key is queued for removal from the index on a path where it was not established to be non-empty (keys found in a file or in the cache are crossed out by emptying them)"
+			case cache != 2:
+				bad[e] = "a series key is queued for removal from the index on a path where the cache was not established to hold no values for it: a series with live points disappears from the index"
+			}
+		})
+		c.Need(complete, "exploration bound deleteSeriesRange")
+		for i, q := range qs {
+			c.Check("dropped-from-index-only-without-data", fmt.Sprintf("%s/queue#%d", f.Name, i+1), c.P.Pos(q.Pos()), bad[q] == "", bad[q])
+		}
 	})
 }
